@@ -29,6 +29,9 @@ pub struct Case {
     /// where the case came from (generated / corpus:<file> / mutant:<file> / witness)
     #[serde(default)]
     pub origin: Option<String>,
+    /// hot-swap properties: fixed (split point, consecutive swaps)
+    #[serde(default)]
+    pub split: Option<(usize, usize)>,
 }
 fn yes() -> bool {
     true
@@ -163,7 +166,7 @@ pub fn gen_case(args: &Args, rng: &mut Rng, finite_inputs: bool) -> Case {
     let prog = generate(rng, feat);
     let src = prog.print();
     let n = *rng.pick(&[8usize, 16, 24, 40, 64]);
-    Case { src, n, input_seed: rng.next(), finite_inputs, prog: Some(prog), expect: None, scheduler: false, path: None, origin: None }
+    Case { src, n, input_seed: rng.next(), finite_inputs, prog: Some(prog), expect: None, scheduler: false, path: None, origin: None, split: None }
 }
 
 /// strip identifiers / numbers from a diagnostic so signatures are stable
